@@ -375,6 +375,103 @@ fn main() {
         out.count("iter_cases", 1);
     }
 
+    // ================================================================ (B2) serialize_vint_u32 / VInt at every branch boundary
+    {
+        let mut vals: Vec<u64> = vec![0, 1, 2, u32::MAX as u64, u32::MAX as u64 - 1];
+        for sh in [7u32, 14, 21, 22, 28, 31] { for d in [-2i64, -1, 0, 1, 2] { let v = (1i64 << sh) + d; if v >= 0 && v <= u32::MAX as i64 { vals.push(v as u64); } } }
+        for sh in [7u32, 14, 21, 22, 28] { for _ in 0..6 { vals.push((1u64 << sh) + rng.below(1u64 << sh)); } }   // inside each branch
+        for _ in 0..(if thorough { 400 } else { 60 }) { vals.push(rng.next_u64() >> (32 + rng.below(32))); }
+        for v in vals {
+            let v32 = v as u32;
+            let r = guarded(|| {
+                let mut buf = [0u8; 8];
+                let enc = tantivy_common::serialize_vint_u32(v32, &mut buf).to_vec();
+                let mut padded = enc.clone(); padded.push(7);
+                let (dec, n) = tantivy_common::read_u32_vint_no_advance(&padded);
+                let mut sl: &[u8] = &padded;
+                let dec2 = tantivy_common::read_u32_vint(&mut sl);
+                (enc, dec, n, dec2, sl.to_vec())
+            });
+            match r {
+                Ok((enc, dec, n, dec2, rest)) => {
+                    // spec: the length read back is the length written
+                    out.spec_checked(dec == v32 && n == enc.len() && dec2 == v32 && rest == vec![7u8], json!({"what": "read_u32_vint(serialize_vint_u32 n) != n", "n": v32, "encoded": cf::hex(&enc), "decoded": dec, "consumed": n}));
+                    // tie (decode direction): the Coq reader on the implementation's bytes
+                    out.coq_case("tie", format!("match read_u32_vint ({} ++ [7]) with Some (x, r) => N.eqb x {} && list_eqb N.eqb r [7] | None => false end", cf::bytes(&enc), dec), json!({"what": "vint32 decode", "n": v32, "encoded": cf::hex(&enc)}), v32 >= 128);
+                    // spec in Coq: the model encoder (pinned thresholds) is read back by the implementation's value
+                    out.coq_case("spec", format!("match read_u32_vint ({} ++ [7]) with Some (x, r) => N.eqb x {} && list_eqb N.eqb r [7] | None => false end", cf::bytes(&enc), v32), json!({"what": "vint32 round trip", "n": v32, "encoded": cf::hex(&enc)}), v32 >= 128);
+                }
+                Err(e) => out.spec_checked(false, json!({"what": "vint32 panicked", "n": v32, "panic": e})),
+            }
+            // VInt (u64) used by the store and the document codec
+            let r64 = guarded(|| { let mut b = Vec::new(); tantivy_common::VInt(v).serialize_into_vec(&mut b); let mut sl: &[u8] = &b; let d = tantivy_common::VInt::deserialize_u64(&mut sl).ok(); let left = sl.len(); (b, d, left) });
+            match r64 {
+                Ok((b, d, left)) => {
+                    out.spec_checked(d == Some(v) && left == 0, json!({"what": "VInt round trip", "n": v, "encoded": cf::hex(&b)}));
+                    out.coq_case("tie", format!("match vint_dec ({} ++ [9]) with Some (x, r) => N.eqb x {} && list_eqb N.eqb r [9] | None => false end", cf::bytes(&b), v), json!({"what": "VInt decode", "n": v}), v >= 128);
+                }
+                Err(e) => out.spec_checked(false, json!({"what": "VInt panicked", "n": v, "panic": e})),
+            }
+            out.count("vint_cases", 1);
+        }
+    }
+
+    // ================================================================ (B3) large stored values (length prefixes in every vint branch)
+    {
+        let n_big = if thorough { 8 } else { 2 };
+        for bi in 0..n_big {
+            let mut sb = Schema::builder();
+            let ft = sb.add_text_field("t", STORED);
+            let fb = sb.add_bytes_field("b", STORED);
+            let fj = sb.add_json_field("j", STORED);
+            let schema = sb.build();
+            // byte lengths: one in [2^21, 2^22), one in [2^14, 2^21), the boundaries themselves, and small ones
+            let lens: Vec<usize> = vec![
+                (1 << 21) + rng.below(1 << 21) as usize, (1 << 14) + rng.below((1 << 21) - (1 << 14)) as usize,
+                *rng.pick(&[(1usize << 21) - 1, 1 << 21, (1 << 21) + 1, (1 << 22) - 1]), *rng.pick(&[(1usize << 14) - 1, 1 << 14, (1 << 14) + 1]), *rng.pick(&[127usize, 128, 129]),
+                if bi % 2 == 1 { (1 << 22) + rng.below(1 << 20) as usize } else { 3 << 20 },
+            ];
+            let mut d: Vec<(u32, Added)> = vec![];
+            for (k, &l) in lens.iter().enumerate() {
+                match k % 3 {
+                    0 => { let s: String = (0..l).map(|i| (b'a' + ((i * 7 + k) % 26) as u8) as char).collect(); d.push((ft.field_id(), Added::Val(OwnedValue::Str(s)))); }
+                    1 => d.push((fb.field_id(), Added::Val(OwnedValue::Bytes(rng.bytes(l))))),
+                    _ => { let s: String = (0..l).map(|i| (b'A' + ((i * 3 + k) % 26) as u8) as char).collect();
+                           d.push((fj.field_id(), Added::Val(OwnedValue::Object(vec![("k".into(), OwnedValue::Array(vec![OwnedValue::Str(s), OwnedValue::U64(l as u64)]))])))); }
+                }
+            }
+            // an array whose address list is longer than 2^14 bytes
+            d.push((fj.field_id(), Added::Val(OwnedValue::Object(vec![("many".into(), OwnedValue::Array((0..9000u64).map(OwnedValue::U64).collect()))]))));
+            let stored: HashSet<u32> = [ft.field_id(), fb.field_id(), fj.field_id()].into_iter().collect();
+            let comp = (bi % 4) as u8;
+            let dir = RamDirectory::create();
+            let path = Path::new("store");
+            let w = guarded(|| -> std::io::Result<()> {
+                let mut sw = StoreWriter::new(dir.open_write(path).unwrap(), compressor(comp), 16_384, bi % 2 == 0)?;
+                sw.store(&build_doc(&[(ft.field_id(), Added::Val(OwnedValue::Str("first".into())))]), &schema)?;
+                sw.store(&build_doc(&d), &schema)?;
+                sw.store(&build_doc(&[(ft.field_id(), Added::Val(OwnedValue::Str("last".into())))]), &schema)?;
+                sw.close()
+            });
+            let desc = json!({"what": "large-values", "compressor": comp_name(comp), "value_byte_lens": lens});
+            if !matches!(w, Ok(Ok(()))) { out.spec_checked(false, json!({"what": "store write failed", "case": desc, "result": format!("{:?}", w)})); continue; }
+            let got = guarded(|| StoreReader::open(dir.open_read(path).unwrap(), 1).and_then(|rd| rd.get::<TantivyDocument>(1).map_err(|e| std::io::Error::other(format!("{e:?}")))));
+            match got {
+                Ok(Ok(doc)) => {
+                    let got = returned(&doc);
+                    let expect = stored_part_rs(&d, &stored);
+                    let lens_of = |x: &[(u32, OwnedValue)]| x.iter().map(|(_, v)| match v { OwnedValue::Str(s) => s.len(), OwnedValue::Bytes(b) => b.len(),
+                        OwnedValue::Object(o) => o.iter().map(|(_, v)| match v { OwnedValue::Array(a) => a.iter().map(|e| if let OwnedValue::Str(s) = e { s.len() } else { 1 }).sum(), _ => 0 }).sum(), _ => 0 }).collect::<Vec<usize>>();
+                    out.spec_checked(got == expect, json!({"what": "large stored value not returned as added", "case": desc, "expected_lens": lens_of(&expect), "got_lens": lens_of(&got)}));
+                }
+                other => out.spec_checked(false, json!({"what": "get of a large document failed", "case": desc, "result": format!("{:?}", other.map(|r| r.map(|_| ())))})),
+            }
+            out.count("large_value_docs", 1);
+            out.count("large_values_2MiB_4MiB", lens.iter().filter(|l| (1 << 21..1 << 22).contains(*l)).count() as u64);
+            out.count("large_values_16KiB_2MiB", lens.iter().filter(|l| (1 << 14..1 << 21).contains(*l)).count() as u64);
+        }
+    }
+
     // ================================================================ (C) stacking / re-appending at store level
     let n_merge = if thorough { 500 } else { 36 };
     let mut coq_merge_budget: i64 = if thorough { 200 } else { 20 };
@@ -552,6 +649,100 @@ fn main() {
         });
         out.spec_checked(matches!(built, Ok(Ok(_))), json!({"what": "index scenario failed", "case": desc, "result": format!("{:?}", built.map(|r| r.map(|_| ())))}));
         out.count("index_cases", 1);
+    }
+
+    // ================================================================ (E) merges after the index's compressor was switched
+    // every ordered pair (codec the segments were written with, codec in force at merge time), stores with
+    // >= 6 blocks (the pinned stacking threshold) and with fewer, with and without deletes
+    {
+        let reps = if thorough { 4 } else { 1 };
+        let mut coq_e_budget: i64 = if thorough { 300 } else { 80 };
+        for rep in 0..reps { for src in 0u8..3 { for dst in 0u8..3 { for many_blocks in [true, false] { for with_deletes in [false, true] {
+            let mut sb = Schema::builder();
+            let id_f = sb.add_u64_field("id", INDEXED | STORED | FAST);
+            let body = sb.add_text_field("body", TEXT | STORED);
+            let extra = sb.add_json_field("extra", STORED);
+            let hidden = sb.add_text_field("hidden", TEXT);
+            let schema = sb.build();
+            let stored_ids: Vec<u32> = vec![id_f.field_id(), body.field_id(), extra.field_id()];
+            let stored: HashSet<u32> = stored_ids.iter().cloned().collect();
+            let mut settings = IndexSettings::default();
+            settings.docstore_compression = compressor(src);
+            settings.docstore_blocksize = if many_blocks { *rng.pick(&[0usize, 40]) } else { 16_384 };
+            settings.docstore_compress_dedicated_thread = rng.chance(1, 2);
+            let via_meta = rng.chance(1, 2);
+            let desc = json!({"what": "codec-switch merge", "written_with": comp_name(src), "merged_with": comp_name(dst), "block_size": settings.docstore_blocksize,
+                              "many_blocks": many_blocks, "deletes": with_deletes, "switch_via": if via_meta { "meta.json" } else { "settings_mut" }});
+            let run = guarded(|| -> tantivy::Result<()> {
+                let dir = RamDirectory::create();
+                let index = Index::create(dir.clone(), schema.clone(), settings.clone())?;
+                let mut added: BTreeMap<u64, Vec<(u32, Added)>> = BTreeMap::new();
+                let mut deleted: HashSet<u64> = HashSet::new();
+                {
+                    let mut w: IndexWriter = index.writer_with_num_threads(1, 20_000_000)?;
+                    w.set_merge_policy(Box::new(NoMergePolicy));
+                    let mut next = 0u64;
+                    for seg in 0..rng.range(1, 3) {
+                        let nd = if many_blocks { rng.range(14, 30) } else { rng.range(1, 5) };   // >= 7 blocks per segment store vs a single block
+                        for _ in 0..nd {
+                            let mut d: Vec<(u32, Added)> = vec![(id_f.field_id(), Added::Val(OwnedValue::U64(next)))];
+                            d.push((body.field_id(), Added::Val(OwnedValue::Str(format!("doc {} {}", next, gen_string(&mut rng, 30))))));
+                            if rng.chance(1, 2) { d.push((extra.field_id(), Added::Val(OwnedValue::Object(vec![("v".into(), gen_value(&mut rng, 2, 8))])))); }
+                            if rng.chance(1, 3) { d.push((hidden.field_id(), Added::Val(OwnedValue::Str("secret".into())))); }
+                            w.add_document(build_doc(&d))?;
+                            added.insert(next, d);
+                            next += 1;
+                        }
+                        w.commit()?;
+                        if with_deletes && (seg == 0 || rng.chance(1, 2)) {
+                            let k = rng.below(next); w.delete_term(Term::from_field_u64(id_f, k)); deleted.insert(k);
+                            w.commit()?;
+                        }
+                    }
+                    w.wait_merging_threads()?;
+                }
+                // switch the compressor of the index, re-open, merge everything
+                let index2 = if via_meta {
+                    let raw = dir.atomic_read(Path::new("meta.json")).map_err(|e| tantivy::TantivyError::InternalError(format!("{e:?}")))?;
+                    let mut meta: serde_json::Value = serde_json::from_slice(&raw).map_err(|e| tantivy::TantivyError::InternalError(format!("{e:?}")))?;
+                    meta["index_settings"]["docstore_compression"] = json!(match dst { 0 => "none", 1 => "lz4", _ => "zstd" });
+                    dir.atomic_write(Path::new("meta.json"), serde_json::to_string(&meta).unwrap().as_bytes())?;
+                    Index::open(dir.clone())?
+                } else {
+                    let mut ix = Index::open(dir.clone())?;
+                    ix.settings_mut().docstore_compression = compressor(dst);
+                    ix
+                };
+                if index2.settings().docstore_compression != compressor(dst) {
+                    out.spec_checked(false, json!({"what": "harness: the compressor switch did not take effect", "case": desc}));
+                }
+                check_index(&index2, &added, &deleted, &stored, &stored_ids, id_f, &mut rng, &mut out, &mut coq_e_budget, &desc, "switched-before-merge");
+                {
+                    let mut w: IndexWriter = index2.writer_with_num_threads(1, 20_000_000)?;
+                    w.set_merge_policy(Box::new(NoMergePolicy));
+                    let ids = index2.searchable_segment_ids()?;
+                    if !ids.is_empty() { w.merge(&ids).wait()?; }
+                    w.wait_merging_threads()?;
+                }
+                check_index(&index2, &added, &deleted, &stored, &stored_ids, id_f, &mut rng, &mut out, &mut coq_e_budget, &desc, "switched-after-merge");
+                // a second merge round on top of the merged segment (its store now carries the new codec): add a segment, merge again
+                if rep % 2 == 0 {
+                    let mut w: IndexWriter = index2.writer_with_num_threads(1, 20_000_000)?;
+                    w.set_merge_policy(Box::new(NoMergePolicy));
+                    let base = added.len() as u64 + 1000;
+                    for k in 0..3u64 { let d = vec![(id_f.field_id(), Added::Val(OwnedValue::U64(base + k))), (body.field_id(), Added::Val(OwnedValue::Str(format!("late {k}"))))]; w.add_document(build_doc(&d))?; added.insert(base + k, d); }
+                    w.commit()?;
+                    let ids = index2.searchable_segment_ids()?;
+                    w.merge(&ids).wait()?;
+                    w.wait_merging_threads()?;
+                    check_index(&index2, &added, &deleted, &stored, &stored_ids, id_f, &mut rng, &mut out, &mut coq_e_budget, &desc, "second-merge");
+                }
+                Ok(())
+            });
+            out.spec_checked(matches!(run, Ok(Ok(()))), json!({"what": "codec-switch merge scenario failed", "case": desc, "result": format!("{:?}", run)}));
+            out.count("codec_switch_merges", 1);
+            out.count(&format!("switch_{}_to_{}", comp_name(src), comp_name(dst)), 1);
+        }}}}}
     }
 
     out.finish(json!({"tier": args.tier, "seed": args.seed}));
